@@ -97,6 +97,8 @@ const LAYOUTS = {
   v1: (lines) => ['// version 1'].concat(lines),
   v2: (lines) => ['// version 2', '/* extra', '   header', '   lines */', ''].concat(lines.map((l) => l === '' ? '\n\n' : l).join('\n').split('\n')),
   crlf: (lines) => ['// crlf'].concat(lines).map((l) => l + '\r'),
+  // text that looks like the trailer, earlier in the file: a string literal, a template and a real (mid-file) comment
+  lookalike: (lines) => ["const marker = '//# sourceMappingURL=data:application/json;base64,' + 'e30='", '//# sourceMappingURL=ghost.js.map', 'const tpl = `\n//# sourceMappingURL=data:application/json;base64,e30=\n`'].concat(lines).join('\n').split('\n'),
   bmp: (lines) => ["// ñ€ header ‘x’"].concat(lines.map((l) => l.replace('/*@', "/* ñ€ */ /*@")))
 }
 const DIR = '/p/c11'
